@@ -992,8 +992,12 @@ def _vetted_field(prog, site_fn, fld_key, fld_rec, refuse_max):
                 for n in sx.walk(cx):
                     if sx.key(n) == fld_key and not any(n is sx.strip(a[2]) for a in sx.walk(cx) if sx.kind(a) == 'bin' and a[1] in ('<', '<=')):
                         mono = False
-                    if sx.kind(n) == 'local' and n[1] == 'frame_rate':
-                        rate_keys.add(sx.key(n))
+                for a in sx.walk(cx):
+                    # the quantity the field is measured against (the frame rate): locals in the comparisons that mention the field
+                    if sx.kind(a) == 'bin' and a[1] in ('<', '<=') and sx.key(sx.strip(a[2])) == fld_key:
+                        for n in sx.walk(a[3]):
+                            if sx.kind(n) == 'local':
+                                rate_keys.add(sx.key(n))
             if not mono or len(rate_keys) != 1:
                 continue
             rk = list(rate_keys)[0]
